@@ -863,3 +863,27 @@ CHECKS["C25"]["text"] += (
     "(thorough 1-3) in-place edits (add a variable with its equation, drop the first equation, change a parameter value) with a "
     "generate after each; every XML must equal the XML of a fresh parse that carries the same edits (differential oracle)."
 )
+
+CHECKS["C02"]["text"] = (
+    'All interleavings with <= 2 preemptions (quick) / <= 3 (thorough; 3 callers with <= 2) of 2-3 real parse() '
+    'calls on one cache database that is absent, holds the text (hit with last-hit update; one hit and one miss), '
+    'has a wrong layout or is corrupt -- each started from every per-process state of parse.initialized_dbs: '
+    'attribute absent (first cached parse of the process), present without this database, present with it. Shared '
+    'as threads (one parser module, one attribute: 3 states) and as processes (one parser module instance and one '
+    "path alias per caller: every tuple of states up to the driver's caller symmetries; quick leaves out the tuples "
+    "with two 'absent' or two 'other' callers; the 3-caller driver runs the uniform tuples and those with one "
+    "caller of each state). SQLite's own lock manager decides every BUSY; the shim turns a BUSY into an immediate "
+    "error or a disabled thread by SQLite's documented rule, which is calibrated against the real library at the "
+    'start of each run. Oracle: every call returns the uncached tree, none raises, no os.remove of a file another '
+    'caller has open, database intact at the end (layout judged when the database was sound from the start or a '
+    'caller new to it finished its check undisturbed).'
+)
+
+CHECKS["C02"]["note"] = (
+    'Lock hold times << 5 s busy timeout (timeouts only at true deadlock); cyclic garbage of a finished caller is '
+    'collected at once; the per-process state is the attribute parse.initialized_dbs only, written as the value a '
+    'real first parse() leaves (measured per worker); texts the database does not hold are interchangeable '
+    '(symmetry reduction of the per-caller states); callers that had all checked the database before it was damaged '
+    'are not required to repair it; the free-running 16-process clause of the quantifier is sampling and not '
+    'decided; known finding D5:removes-database-in-use is listed in known_findings.json.'
+)
